@@ -18,6 +18,8 @@
 (*   b,d,e  constraints: theta >= 0 (non-negative / interpolation), unit    *)
 (*      norm (regression), adjacent convex pair (interpolation), index      *)
 (*      within range (selection).                                            *)
+(* Sessions with hdr.fitter = "family" record rsatoolbox.model.ModelFamily: *)
+(* member index -> subset of component models must be FamilyList(n)[i].     *)
 (* One behaviour per trace id; acceptance is printed.                       *)
 (***************************************************************************)
 EXTENDS Fitting, IOUtils
@@ -34,9 +36,14 @@ TInit == /\ tid \in 1..Len(Traces) /\ l = 1
 ExpectedTok(e) == LET ob == RestrOb(e.pidx) IN [r \in 1..Len(e.rows) |-> ob.vec[e.rows[r]]]
 SumSq(t) == SumS([k \in 1..Len(t) |-> t[k] * t[k]])
 Support(t) == {k \in 1..Len(t) : t[k] # 0}
+\* sessions of the family driver: hdr.fitter = "family"; an event logs, for family index e.i of e.n component models,
+\* the subset the library lists for it and the component ids read off the member's RDM rows (tokens)
+WhyFam(e) == IF e.subset # FamilyList(e.n)[e.i] THEN "family-index"
+             ELSE IF e.rows # e.subset \/ e.nparam # Len(e.subset) THEN "family-member" ELSE ""
 Why(e) ==
   LET th == e.theta  kk == Hdr.K  f == Hdr.fitter IN
-  IF e.tok # ExpectedTok(e) THEN "data-entries"
+  IF f = "family" THEN WhyFam(e)
+  ELSE IF e.tok # ExpectedTok(e) THEN "data-entries"
   ELSE IF \E i \in 1..Len(e.comps) : e.comps[i].s9 > e.s9 + Hdr.tol9 THEN "beaten"
   ELSE IF f = "fit_select" THEN (IF th[1] >= 0 /\ th[1] < kk THEN "" ELSE "index-range")
   ELSE IF Len(th) # kk THEN "shape"
@@ -52,7 +59,8 @@ TStep == /\ l >= 1 /\ l <= Len(Evs)
          /\ LET e == Evs[l] IN
             IF Why(e) = ""
             THEN /\ l' = l + 1 /\ (l = Len(Evs) => PrintT(ToJson([accept |-> tid])))
-            ELSE /\ PrintT(ToJson([reject |-> tid, l |-> l, why |-> Why(e), expected |-> ExpectedTok(e)]))
+            ELSE /\ PrintT(ToJson([reject |-> tid, l |-> l, why |-> Why(e),
+                                   expected |-> IF Hdr.fitter = "family" THEN FamilyList(e.n)[e.i] ELSE ExpectedTok(e)]))
                  /\ l' = 0
          /\ UNCHANGED <<objs, hist, bid, train, pidx, pc, comp, th2, cc, tid>>
 TSpec == TInit /\ [][TStep]_<<objs, hist, bid, train, pidx, pc, comp, th2, cc, tid, l>>
